@@ -421,23 +421,24 @@ Open Scope Q_scope.
 Definition exh_pop : list Q := [1; 2; 1 # 2].
 Definition exh_brk : list Q := [10; 30].
 
+Definition exh : history QNum :=
+  mkHist QNum [0; 10; 30] [2; 4; 1] [0; 5; 10] [1 # 2; 1 # 4; 1].
+Definition exh1 : history QNum := mkHist QNum [0] [6] [0] [1 # 6].
+
 Lemma C17_example :
-  exists h, mk_history QNum exh_pop exh_brk = Some h /\
-    h_cb QNum h = [0; 5; 10] /\ h_cr QNum h = [1 # 2; 1 # 4; 1] /\
-    to_coalescent QNum h [0; 5; 10; 20; 30; 40] = Some [0; 5 # 2; 5; 15 # 2; 10; 20] /\
-    to_natural QNum h [0; 5 # 2; 5; 15 # 2; 10; 20] = Some [0; 5; 10; 20; 30; 40] /\
-    as_dict QNum h = (exh_pop, exh_brk) /\
-    to_coalescent QNum h [-1] = None.
-Proof.
-  eexists. split; [vm_compute; reflexivity|]. vm_compute. repeat split; reflexivity.
-Qed.
+  mk_history QNum exh_pop exh_brk = Some exh /\
+  to_coalescent QNum exh [0; 5; 10; 20; 30; 40] = Some [0; 5 # 2; 5; 15 # 2; 10; 20] /\
+  to_natural QNum exh [0; 5 # 2; 5; 15 # 2; 10; 20] = Some [0; 5; 10; 20; 30; 40] /\
+  as_dict QNum exh = (exh_pop, exh_brk) /\
+  to_coalescent QNum exh [-1] = None.
+Proof. repeat split; vm_compute; reflexivity. Qed.
 
 (** a constant-size history with exact special-function values for shape 2, rate 5:
     Gamma(2,3,4) = 1,2,6; 5^(2,3,4) = 25,125,625; C = 25 *)
+Definition ex_gam (s : Q) : Q := if Qeq_bool s 2 then 1 else if Qeq_bool s 3 then 2 else 6.
+Definition ex_pow (_ s : Q) : Q := if Qeq_bool s 2 then 25 else if Qeq_bool s 3 then 125 else 625.
+
 Lemma C17_gamma_example :
-  exists h, mk_history QNum [3] [] = Some h /\
-    gamma_to_natural QNum (fun _ _ => 0)
-      (fun s => if Qeq_bool s 2 then 1 else if Qeq_bool s 3 then 2 else 6)
-      (fun _ s => if Qeq_bool s 2 then 25 else if Qeq_bool s 3 then 125 else 625)
-      (fun _ _ => 25) h 2 5 = Some (2, 5 # 6).
-Proof. eexists. split; vm_compute; reflexivity. Qed.
+  mk_history QNum [3] [] = Some exh1 /\
+  gamma_to_natural QNum (fun _ _ => 0) ex_gam ex_pow (fun _ _ => 25) exh1 2 5 = Some (2, 5 # 6).
+Proof. split; vm_compute; reflexivity. Qed.
